@@ -168,6 +168,17 @@ CHECKS = {
              'against the float library for every grid.',
         technique=TECH + ' (QF_LRA / QF_NRA identities)',
         design='3/C16'),
+    'C18': dict(
+        text='RESTRICTED sub-claim, bounded solver verdict on the real Limit / Residue: with a symbolic real z0 every evaluation '
+             'point after the probe lies above (below) z0 for method above (below) and equals z0 + sign*step; finite entries of '
+             'f(z0) are returned as the same term with zero error estimate for every NaN pattern (length <= 3) and the limit is '
+             'taken at the NaN positions only; on the polynomial limit model with symbolic coefficients every Richardson row inside '
+             '_lim and the end-to-end value equal the limit within the backward-error bound (orders 1..6, above/below, radial/spiral, '
+             'real/complex z0); Residue with poles of order 1..3 returns g(z0). Transcendental kernels and error-estimate '
+             'calibration are not claimed.',
+        note='Trusted: z3 (QF_LRA / QF_UFLRA); convolve1d reference; exact arithmetic on the floats the library passes to f.',
+        technique=TECH + ' (QF_LRA)',
+        design='3/C18'),
 }
 
 NOT_APPLICABLE = {
